@@ -261,3 +261,22 @@ func WireForm(a *c4eapp.App, msg sdk.Msg) (out sdk.Msg) {
 	}
 	return back
 }
+
+// QueryRouted asks a query the way a client does: path and marshalled request through the application's
+// gRPC query router (request decoding, the registered query server, response encoding), with ctx as the
+// state.  The oracles of properties that speak about what a query reports read their answers this way.
+func QueryRouted(a *c4eapp.App, ctx sdk.Context, path string, req codec.ProtoMarshaler, resp codec.ProtoMarshaler) error {
+	h := a.GRPCQueryRouter().Route(path)
+	if h == nil {
+		return fmt.Errorf("the application's query router has no route %s", path)
+	}
+	bz, err := a.AppCodec().Marshal(req)
+	if err != nil {
+		return err
+	}
+	res, err := h(ctx, abci.RequestQuery{Path: path, Data: bz})
+	if err != nil {
+		return err
+	}
+	return a.AppCodec().Unmarshal(res.Value, resp)
+}
